@@ -21,6 +21,20 @@ Definition two32 : Z := 4294967296.
 Definition two63 : Z := 9223372036854775808.
 Definition two64 : Z := 18446744073709551616.
 
+Fixpoint kids (P : list Z -> option (tree * list Z)) (n : nat) (r : list Z) {struct n} : option (list tree * list Z) :=
+  match n with
+  | O => Some ([], r)
+  | S n' =>
+    match P r with
+    | Some (t, r') =>
+      match kids P n' r' with
+      | Some (ts, r'') => Some (t :: ts, r'')
+      | None => None
+      end
+    | None => None
+    end
+  end.
+
 Fixpoint parse (fuel : nat) (ws : list Z) {struct fuel} : option (tree * list Z) :=
   match fuel with
   | O => None
@@ -32,20 +46,10 @@ Fixpoint parse (fuel : nat) (ws : list Z) {struct fuel} : option (tree * list Z)
       match w mod 4 with
       | 0 => Some (A k, r)
       | 1 => Some (A (- k), r)
-      | 2 =>
-        (fix kids (n : nat) (r : list Z) {struct n} : option (tree * list Z) :=
-           match n with
-           | O => Some (L [], r)
-           | S n' =>
-             match parse f r with
-             | Some (t, r') =>
-               match kids n' r' with
-               | Some (L ts, r'') => Some (L (t :: ts), r'')
-               | _ => None
-               end
+      | 2 => match kids (parse f) (Z.to_nat k) r with
+             | Some (ts, r') => Some (L ts, r')
              | None => None
              end
-           end) (Z.to_nat k) r
       | _ =>
         match r with
         | hi :: lo :: r' =>
@@ -106,9 +110,21 @@ Notation "'olet' x ':=' e 'in' k" := (match e with Some x => k | None => None en
      3 the case could not be decoded (harness and model out of step)       *)
 Definition verdict (agree holds : bool) : Z := if agree then 0 else if holds then 1 else 2.
 
+(* every case file also re-encodes what it decoded and compares with the words it was given
+   ([3;1] otherwise): together with WireProps.parse_encode (the decoder inverts the encoder) this
+   shows that on the words actually seen the decoder lost nothing. *)
+Fixpoint zlist_eqb (a b : list Z) : bool :=
+  match a, b with
+  | [], [] => true
+  | x :: a', y :: b' => (x =? y) && zlist_eqb a' b'
+  | _, _ => false
+  end.
+
+Definition reencodes (t : tree) (ws : list int) : bool := zlist_eqb (encode t) (map Uint63.to_Z ws).
+
 Definition judge_cases (judge : tree -> option (list Z)) (cases : list (list int)) : list (list Z) :=
   map (fun ws => match decode ws with
-                 | Some t => match judge t with Some v => v | None => [3] end
+                 | Some t => if reencodes t ws then match judge t with Some v => v | None => [3] end else [3; 1]
                  | None => [3; 0] end) cases.
 
 Definition show_cases {X} (f : tree -> option X) (d : X) (cases : list (list int)) : list X :=
